@@ -140,7 +140,8 @@ func runPrune(t *testing.T, run *emit.Run, n int) {
 		{1, 3, false, func() (*codectypes.Any, error) {
 			return codectypes.NewAnyWithValue(&evmtypes.SmartContractExecutionErrorProof{ErrorMessage: "boom"})
 		}},
-		// a proof whose BytesToHash fails (not a transaction): VerifyEvidence returns no result
+		// a proof whose BytesToHash fails (not a transaction): refused at submission where the keeper
+		// validates proofs, otherwise VerifyEvidence returns no result
 		{0, 4, true, func() (*codectypes.Any, error) {
 			return codectypes.NewAnyWithValue(&evmtypes.TxExecutedProof{SerializedTX: []byte{1, 2, 3}})
 		}},
@@ -257,7 +258,15 @@ func runPrune(t *testing.T, run *emit.Run, n int) {
 				t.Fatal(err)
 			}
 			if err := k.AddMessageEvidence(ctx, pvalAddr(v), &types.MsgAddEvidence{Proof: a, MessageID: id, QueueTypeName: qname}); err != nil {
+				if p.bad {
+					// trees that validate proofs at submission refuse the unhashable one: this
+					// validator then simply has no evidence entry (it stays silent)
+					run.Count("prune-bad-proof", "refused at submission")
+					continue
+				}
 				t.Fatalf("AddMessageEvidence: %v", err)
+			} else if p.bad {
+				run.Count("prune-bad-proof", "stored")
 			}
 			if inside {
 				votes.Add(votes, share)
